@@ -140,8 +140,8 @@ def runScriptWith {σ} (I : Iface σ) (s0 : σ) (parts : List (String × List St
   match parts.lookup "main" with
   | none => "bad-case"
   | some main =>
-    let (_, out, aborted) := execStmts I parts 10000 s0 main []
-    " | ".intercalate (out.reverse ++ [if aborted then "abort" else "@END"])
+    let (_, out, st) := execStmts I parts 10000 s0 main []
+    " | ".intercalate (out.reverse ++ [if st = .ok then "@END" else "abort"])
 
 def runScript (body : String) : String :=
   match ((splitTrim body ";").filter (· ≠ "")).mapM parsePart with
